@@ -78,7 +78,8 @@ def shards(tier):
 
 def floors(tier):
     return {"cases": 20000, "insertions": 20000, "insertions_depth2plus": 1000, "would_fail_values": 8000,
-            "next_to_ref": 1000, "base_uri_cases": 100, "own_id_next_to_ref": 100, "foreign_sibling_matrix_cases": 50000, "root_ref_cases": 500, "embedded_lookalike_cases": 2000, "empty_or_hash_ref_cases": 1000, "cases_with_errors": 5000, "foreign_names_used": 150}
+            "next_to_ref": 1000, "base_uri_cases": 100, "own_id_next_to_ref": 100, "foreign_sibling_matrix_cases": 50000, "root_ref_cases": 500, "embedded_lookalike_cases": 2000, "empty_or_hash_ref_cases": 1000, "cases_with_errors": 5000, "foreign_names_used": 150,
+            "foreign_id_in_store_document_cases": 100}
 
 
 def errors_of(d, schema, inst, resolver=None):
@@ -228,6 +229,38 @@ def base_uri_cases(ctx, d, rng):
                     inst, resolver_factory=rf)
 
 
+def foreign_id_in_store_documents(ctx, d):
+    """The other drafts' id keyword inside a document handed over in `store=` (or served by a handler) is data, too: it
+    neither makes the document answer for that URL nor shadows the document that does."""
+    own = impl.IDKW[d]
+    foreign = "$id" if own == "id" else "id"
+    U_A, U_B, U_C = "http://store.example/lib/a.json", "http://store.example/lib/b.json", "vf://handler.example/lib/c.json"
+    A, B, Cdoc = {"type": "integer"}, {"type": "string"}, {"type": "array"}
+    S = {"properties": {"a": {"$ref": U_A}, "b": {"$ref": U_B}, "c": {"$ref": U_C}, "b2": {"items": {"$ref": U_B + "#"}}}}
+    insts = [{"a": 1, "b": 1, "c": 1}, {"a": "s", "b": "s", "c": "s"}, {"a": [], "b": [], "c": [], "b2": [1, "s"]}, {"b": 1}, {"c": 5, "b2": ["s"]}]
+    plans = [("a-claims-b", {U_A: dict(A, **{foreign: U_B}), U_B: B}), ("b-first", {U_B: B, U_A: dict(A, **{foreign: U_B})}),
+             ("a-claims-c", {U_A: dict(A, **{foreign: U_C}), U_B: B}), ("b-claims-a", {U_A: A, U_B: dict(B, **{foreign: U_A})}),
+             ("nested-claim", {U_A: {"type": "integer", "definitions": {"x": {foreign: U_B, "type": "null"}}}, U_B: B}),
+             ("a-claims-b-with-fragment", {U_A: dict(A, **{foreign: U_B + "#"}), U_B: B})]
+    plain = {U_A: A, U_B: B}
+
+    def rf(store, claim_in_handler=False):
+        def handler(url):
+            return dict(Cdoc, **{foreign: U_B}) if claim_in_handler else Cdoc
+        return RefResolver.from_schema(S, id_of=impl.CLS[d].ID_OF, store=dict(store), handlers={"vf": handler})
+    for name, store in plans + [("handler-document-claims-b", plain)]:
+        for inst in insts:
+            ctx.count("foreign_id_in_store_document_cases")
+            st0, f0 = errors_of(d, S, inst, rf(plain))
+            st1, f1 = errors_of(d, S, inst, rf(store, claim_in_handler=(name == "handler-document-claims-b")))
+            case = {"draft": d, "schema": S, "store": store, "plan": name, "instance": inst,
+                    "insertions": [{"name": foreign, "would_fail": True, "next_to_ref": False, "depth": 0, "path": ["<store document>"]}]}
+            ctx.case([d, "store-doc-foreign-id", name, inst], nontrivial=True)
+            if st0 != st1 or f0 != f1:
+                ctx.violation("errors-changed", case, "adding %r to a stored document changed the outcome: %r -> %r" % (
+                    foreign, (st0, f0 and f0[0][:2]), (st1, f1 and f1[0][:2])))
+
+
 def embedded_lookalikes(ctx, d, rng):
     """The value of a foreign keyword is data: even when it contains objects that carry the id (either spelling) of a
     document the schema refers to, it must never become the target of a reference."""
@@ -332,6 +365,7 @@ def run(ctx):
             empty_ref_cases(ctx, d, rr)
             root_ref_cases(ctx, d, rr)
             embedded_lookalikes(ctx, d, rr)
+            foreign_id_in_store_documents(ctx, d)
     idx = 0
     for d in impl.DRAFTS:
         idx = foreign_sibling_matrix(ctx, d, rr, used, idx)
@@ -399,6 +433,9 @@ def replay(ctx, rec):
     c = rec["case"]
     d = c["draft"]
     rf = None
+    if "plan" in c:
+        foreign_id_in_store_documents(ctx, d)      # small and deterministic: the whole cell again
+        return
     if any(k.startswith("http://base.example") for k in [str(c["schema"].get(impl.IDKW[d], ""))]):
         store = {"http://base.example/doc.json": {"type": "integer"}, "http://other.example/dir/doc.json": {"type": "string"},
                  "http://base.example/dir/doc.json": {"type": "array"}}
